@@ -431,7 +431,7 @@ def run_generated(spec, rec, rng, pint, R, CM):
                 elif not has_p and rng.random() < 0.2:
                     kw["p"] = F(rng.randint(2, 20))
                 entries.append((name, alias, kw))
-            form = rng.choice(("enable", "with-nested", "single-call", "to-call", "object", "alias"))
+            form = rng.choice(("enable", "with-nested", "single-call", "to-call", "object", "alias", "stepwise", "stepwise"))
             rec.observe("forms", form)
             INPLACE[0] = rng.random() < 0.35
             if INPLACE[0]:
@@ -496,13 +496,20 @@ def run_generated(spec, rec, rng, pint, R, CM):
                         return conv(q, ub)
                     finally:
                         ureg.disable_contexts(len(entries))
-                if form in ("with-nested", "object", "alias"):
+                if form in ("with-nested", "object", "alias", "stepwise"):
                     def nest(i):
                         if i == len(entries):
                             return conv(q, ub)
                         name, alias, kw = entries[i]
-                        key = name if form == "with-nested" else alias if form == "alias" else ureg._contexts[name]
+                        key = name if form in ("with-nested", "stepwise") else alias if form == "alias" else ureg._contexts[name]
                         with ureg.context(key, **kw):
+                            if form == "stepwise" and i + 1 < len(entries):
+                                # the SAME conversion is asked at every level of the growing stack; only the
+                                # innermost answer is judged, the outer ones must leave nothing behind
+                                try:
+                                    conv(q, ub)
+                                except Exception:  # noqa: BLE001
+                                    pass
                             return nest(i + 1)
                     return nest(0)
                 if form == "single-call":
